@@ -16,13 +16,13 @@
    two users, an action of user x leaves user y's store unchanged.
 2. spec -> code: every enumerated (layout, name) state is concretised and sent,
    as an IMAP literal, in every command slot that takes a mailbox argument, by
-   user1 on a maildir store with user1 and user2 provisioned, inside a scratch
+   user1 on a maildir store with user1 and user1x provisioned, inside a scratch
    directory, with the filesystem API of the harness process wrapped: every
    path handed to the os is recorded, resolved and classified relative to
    user1's root, and compared with the zone TLC computed for that name.
-   Independently a snapshot (names, sizes, content hashes) of user2's tree and
+   Independently a snapshot (names, sizes, content hashes) of user1x's tree and
    of the credential files is compared before/after.
-3. dict backend: the same names in every slot by user1; user2's
+3. dict backend: the same names in every slot by user1; user1x's
    LIST/LSUB/STATUS/FETCH dump must be unchanged.
 
 SAFETY: while a command runs, every writing / destructive filesystem call
@@ -235,7 +235,7 @@ class FsGuard:
 # the store under test
 
 WATCHDOG_S = 10.0
-USERS = {'user1': 'pass1', 'user2': 'pass2'}
+USERS = {'user1': 'pass1', 'user1x': 'pass2'}
 MSG = {u: (b'From: %s@example.com\r\nSubject: marker of %s\r\n\r\nprivate text of %s\r\n'
            % (u.encode(), u.encode(), u.encode())) for u in USERS}
 
@@ -413,7 +413,7 @@ class Store:
 
     def zone(self, base: str, resolved: str) -> str:
         root1 = os.path.join(base, 'user1')
-        root2 = os.path.join(base, 'user2')
+        root2 = os.path.join(base, 'user1x')
         if resolved == root1:
             return 'root'
         if resolved.startswith(root1 + '/'):
@@ -554,7 +554,7 @@ def execute(store: Store, layout: str, variant: str, slot: str, name: bytes) -> 
     pr = store.pristine[key]
     diff = snap_diff(pr, after)
     for k, what in diff:
-        if k == 'user2' or k.startswith('user2/'):
+        if k == 'user1x' or k.startswith('user1x/'):
             ex.other_diff.append((k, what))
         elif k.startswith('pymap-etc-'):
             ex.cred_diff.append((k, what))
@@ -587,11 +587,11 @@ def show(absname) -> str:
 
 
 def concretise(absname, layout: str, full: bool, long_too: bool = True) -> list:
-    """[(variant, bytes)].  'exist': every letter is 'a' (user1 and user2 both
+    """[(variant, bytes)].  'exist': every letter is 'a' (user1 and user1x both
     hold a mailbox 'a'); 'fresh': 'b' (no such mailbox); 'utf8': the non-ASCII
     character as raw UTF-8 instead of modified UTF-7; 'long': the first letter
-    300 times; 'icase': INBOX in mixed case; 'user2@i': the i-th component, if made of letters only, spelled
-    'user2' (the other user's directory name)."""
+    300 times; 'icase': INBOX in mixed case; 'user1x@i': the i-th component, if made of letters only, spelled
+    'user1x' (the other user's directory name)."""
     syms = [str(x) for x in absname]
     out = [('exist', b''.join(CONC[s] for s in syms))]
     if not full:
@@ -616,9 +616,9 @@ def concretise(absname, layout: str, full: bool, long_too: bool = True) -> list:
         if any(c == ['DOT', 'DOT'] for c in comps):
             for i, c in enumerate(comps):
                 if c and all(s == 'a' for s in c):
-                    parts = [b'user2' if j == i else b''.join(CONC[s] for s in cc)
+                    parts = [b'user1x' if j == i else b''.join(CONC[s] for s in cc)
                              for j, cc in enumerate(comps)]
-                    out.append((f'user2@{i}', b'/'.join(parts)))
+                    out.append((f'user1x@{i}', b'/'.join(parts)))
     return out
 
 
@@ -657,8 +657,8 @@ def judge(store: Store, base: str, ex: Exec, slot: str, st: dict):
             what = f'{fn}({raw.replace(base, "<base>")}) [{kind}] -> {z}'
         esc.setdefault((az, z, fn, kind), what)
     for k, w in ex.other_diff:
-        az = 'sibling' if k == 'user2' else 'siblingIn'
-        esc.setdefault((az, 'other-changed', w, ''), f'user2\'s store changed: {k} {w}')
+        az = 'sibling' if k == 'user1x' else 'siblingIn'
+        esc.setdefault((az, 'other-changed', w, ''), f'user1x\'s store changed: {k} {w}')
     for k, w in ex.cred_diff:
         esc.setdefault(('sibling', 'cred-changed', w, ''), f'credential file {k} {w}')
     for k, w in ex.base_diff:
@@ -690,7 +690,7 @@ def signature(layout: str, slot: str, st: dict, beyond: list) -> str:
 
 
 # --------------------------------------------------------------------------
-# dict backend: user1 sends the names, user2's dump must not change
+# dict backend: user1 sends the names, user1x's dump must not change
 
 DUMP = (b'LIST "" *', b'LSUB "" *',
         b'STATUS INBOX (MESSAGES UIDNEXT UIDVALIDITY UNSEEN)',
@@ -704,9 +704,9 @@ class DictWorld:
     def __init__(self):
         self.w = World('dict', users=USERS)
         w = self.w
-        # user2 first; what user1 does afterwards (its own set-up included) must
-        # not show in user2's dump
-        for u in ('user2', 'user1'):
+        # user1x first; what user1 does afterwards (its own set-up included) must
+        # not show in user1x's dump
+        for u in ('user1x', 'user1'):
             w.connect(u)
             Store._ok(w.login(u, u))
             if u == 'user1':
@@ -714,7 +714,7 @@ class DictWorld:
             for line in (b'APPEND INBOX ' + lit(MSG[u]), b'CREATE a',
                          b'APPEND a ' + lit(MSG[u]), b'SUBSCRIBE a'):
                 resp = w.cmd(u, line)
-                if u == 'user2':
+                if u == 'user1x':
                     Store._ok(resp)
         self.n = 0
         self.setup_changed = [DUMP[i].decode() for i, d in enumerate(self.dump())
@@ -723,7 +723,7 @@ class DictWorld:
     def dump(self) -> list:
         out = []
         for line in DUMP:
-            out.append(self.w.cmd('user2', line, tag=b'D'))
+            out.append(self.w.cmd('user1x', line, tag=b'D'))
         return out
 
     def run_slot(self, slot: str, name: bytes):
@@ -761,7 +761,7 @@ def dict_campaign(run: Run, states: list, quick: bool) -> None:
                 if dw.setup_changed:
                     run.violation(
                         'dict backend: after user1 set up its own store (APPEND INBOX, CREATE a, '
-                        'APPEND a, SUBSCRIBE a), user2 observes a different '
+                        'APPEND a, SUBSCRIBE a), user1x observes a different '
                         + ', '.join(dw.setup_changed),
                         {'check': 'C08', 'backend': 'dict', 'slot': 'SETUP', 'name_hex': '',
                          'abstract': ''}, 'dict:SETUP:OtherUserChanged')
@@ -782,13 +782,13 @@ def dict_campaign(run: Run, states: list, quick: bool) -> None:
                     n_exec += 1
                     changed = [DUMP[i].decode() for i in range(len(DUMP))
                                if after[i] != dw.baseline[i]]
-                    shared = dw.w.mailbox_set('user2') is dw.w.mailbox_set('user1')
+                    shared = dw.w.mailbox_set('user1x') is dw.w.mailbox_set('user1')
                     run.count_exec(('dict', slot, key, variant),
                                    nontrivial=cond[0] in ('OK', 'NO'))
                     if changed or shared:
                         run.violation(
                             f'dict backend: after user1 sent {slot} with name {name!r} '
-                            f'({cond[0]}), user2 observes a different '
+                            f'({cond[0]}), user1x observes a different '
                             + ', '.join(changed or ['(same MailboxSet object)']),
                             {'check': 'C08', 'backend': 'dict', 'slot': slot,
                              'name_hex': name.hex(), 'abstract': show(st['name'])},
@@ -810,7 +810,7 @@ def summarise(ex: Exec, base: str) -> dict:
         if phase != 'login' and z not in ('in', 'tmp'):
             zs.setdefault(f'{z}:{kind}', raw.replace(base, '<base>'))
     return {'response': list(ex.cond) if ex.cond else None, 'touched': zs,
-            'user2_changed': ex.other_diff[:4], 'cred_changed': ex.cred_diff[:4],
+            'user1x_changed': ex.other_diff[:4], 'cred_changed': ex.cred_diff[:4],
             'base_changed': ex.base_diff[:4], 'inbox_lost': ex.inbox_lost[:2],
             'root_removed': ex.root1_gone}
 
@@ -954,7 +954,7 @@ def main(tier: str) -> int:
         'executions = one IMAP command of user1 carrying one concretised name of the '
         'TLC-enumerated name set in one mailbox-argument slot, on a two-user maildir '
         'store (both layouts) with the filesystem API recorded, or on the dict backend '
-        'followed by a dump of user2; non-trivial = the command was not refused by the '
+        'followed by a dump of user1x; non-trivial = the command was not refused by the '
         'parser and made at least one filesystem call (maildir) / was answered OK or NO '
         '(dict); distinct = distinct (layout, slot, abstract name, concretisation)')
     run.assumptions += [
@@ -967,7 +967,7 @@ def main(tier: str) -> int:
         '(tempfile.tempdir redirected); zone "tmp" is a C15 matter, not judged here',
         'INBOX appears only in the few ExtraNames of WirePath.tla (INBOX, INBOX/, INBOX/a, '
         'INBOX/.., ./INBOX), not in the exhaustive alphabet',
-        'user names / mailbox_path of the users are ordinary (user1, user2)']
+        "the two users are user1 and user1x: the neighbour store's directory name has the actor's as a string prefix, so prefix-based containment tests show"]
 
     # 1. the model
     try:
@@ -1127,7 +1127,7 @@ def replay(path: str) -> int:
             after = dw.dump()
             changed = [DUMP[i].decode() for i in range(len(DUMP)) if after[i] != dw.baseline[i]]
             print('response', cond)
-            print('user2 dump changed in', changed)
+            print('user1x dump changed in', changed)
             return 1 if changed else 0
         finally:
             dw.close()
